@@ -176,13 +176,16 @@ let run_schc op =
     if what = "compress" then show string_of_bits (schc_compress ctxs packet)
     else show string_of_bits (schc_decompress compute_functions ctxs packet)
   | "parse" ->    (* stack id, packet bits -> fields and payload *)
-    let st = (match next () with "IPv6-UDP-CoAP" -> IPv6_UDP_CoAP | "IPv4-UDP-CoAP" -> IPv4_UDP_CoAP | "IPv4" -> S_IPv4
-              | "IPv6" -> S_IPv6 | "UDP" -> S_UDP | "CoAP" -> S_CoAP | _ -> S_SCTP) in
+    let name = next () in
+    let parser = (match name with
+                  | "CoAP-semantic" -> packet_parse [parse_coap_semantic]
+                  | _ -> factory (match name with "IPv6-UDP-CoAP" -> IPv6_UDP_CoAP | "IPv4-UDP-CoAP" -> IPv4_UDP_CoAP | "IPv4" -> S_IPv4
+                                  | "IPv6" -> S_IPv6 | "UDP" -> S_UDP | "CoAP" -> S_CoAP | _ -> S_SCTP)) in
     let b = next_bits () in
     show (fun (fs, pl) ->
             String.concat " " (List.map (fun f -> Printf.sprintf "%s%d/%d/%s" (string_of_proto f.f_id.fproto) (int_of_z f.f_id.fidx) (int_of_z f.f_pos) (string_of_bits f.f_val)) fs)
             ^ " | " ^ string_of_bits pl)
-      (factory st b)
+      (parser b)
   | "parsesem" ->
     let b = next_bits () in
     show (fun (fs, n) ->
